@@ -367,16 +367,24 @@ def task_traces(rec, lock_alias=None, default_lock=None):
 
 
 def lockset_violations(rec, any_lock_ok_for=()):
-    """Dataset calls made by a block without holding that dataset's lock, and dataset calls made by the coordinator
-    (main thread) on an output while the pool is still running."""
+    """Lockset (Eraser) discipline: for every shared dataset, the locks held by the blocks at each of its calls must have a common member -
+    SOME lock that is always held when the dataset is touched (which lock is the code's business: one lock per dataset, or one for
+    several, both give mutual exclusion).  Also: dataset calls made by the coordinator (main thread) on an output while the pool is
+    still running."""
     bad = []
+    common = {}
     for (seq, tk, kind, what, op, held, pool_active) in rec.events:
         if kind != 'beg':
             continue
         if tk != 'main':
-            ok = (what in held) or (what in any_lock_ok_for and len(held) > 0)
-            if not ok:
-                bad.append(dict(seq=seq, task=tk, dataset=what, op=op, lockset=list(held), why='dataset call without its lock'))
+            # per pool: pools run one after the other (stats: the window pass and the sums pass each create their own lock)
+            key = (tk.split('t')[0], what)
+            c = common.get(key)
+            c2 = set(held) if c is None else (c & set(held))
+            if not c2 and (c is None or c):
+                bad.append(dict(seq=seq, task=tk, dataset=what, op=op, lockset=list(held), candidates_before=sorted(c) if c else [],
+                                why='dataset call without its lock'))
+            common[key] = c2
         elif pool_active > 0 and what in ('corr', 'param'):
             bad.append(dict(seq=seq, task=tk, dataset=what, op=op, lockset=list(held), why='coordinator touched an output while blocks are in flight'))
     return bad
